@@ -25,6 +25,10 @@ Definition instance_of (host : hostg) (rc : its) (g : its) : Prop :=
     (forall e, elem_count e (fst (its_decompose g)) = elem_count e (mol_of_host host)) /\
     total_charge (fst (its_decompose g)) = total_charge (mol_of_host host) /\
     (forall a b, In a (node_ids host) -> In b (node_ids host) -> bondG g a b = adj host a b) /\
+    (* (a) atom by atom: every substrate atom is an atom of g whose reactant tuple is the substrate's up to the hydrogen count
+       (element, aromaticity, charge, neighbors; the hydrogens are accounted for by the element counts above: a count may have
+       become explicit H atoms) *)
+    (forall n a, label host n = Some a -> exists a', label g n = Some a' /\ set_hc (iG a') 0 = set_hc a 0) /\
     (* (b) *)
     (balancedb rc = true ->
        (forall e, elem_count e (fst (its_decompose g)) = elem_count e (snd (its_decompose g))) /\
